@@ -679,6 +679,8 @@ class C11:
                                          "both tiers: detection idiom and batched reject TU over every probe x variant") if t != "quick" else \
             "quick: detection idiom and batched reject TU over every probe x variant; individual compiles are sampled"
         res.extra["body_rejected_not_sfinae_visible"] = dict(sorted(self.body_rejected_seen.items()))
+        for sig, _p, _t in res.violations:
+            self.sigs.setdefault(sig, 1)
         res.extra["violation_counts_per_signature"] = dict(sorted(self.sigs.items()))
         res.extra["bytes_used"] = sorted({u.byte for s in schemas for u in s.units})
         res.extra["probe_configs_used"] = sorted({u.cfgname for s in schemas for u in s.units})
